@@ -24,9 +24,11 @@ Obligations on every path (z3 decides the path, the outcome is a fact of the pat
 """
 from __future__ import annotations
 
+import os
 import sys
 
 from sx.run import Unit
+from sx import core as _core
 from sx.core import sx_eq, s_and, s_or, s_not, s_implies, SBytes, SInt, SBool, SDict
 from kits import session as S
 from kits import updates as K
@@ -65,14 +67,23 @@ DEFINED = {
     6: {0, 1, 2, 3, 4, 5, 6, 7, 8, 9, 10},         # RFC 4486, 9 = RFC 8538, 10 = RFC 9384
     7: {1},                                        # RFC 7313 5: Invalid Message Length
 }
-# what each message type may be refused with (the fault is in THAT message)
-BY_TYPE = {
-    1: {2}, 2: {3}, 3: set(), 4: {1}, 5: {7, 1}, 6: {5, 1},
-}
+# what the body of each message type may be refused with: the error code of that message type (RFC 4271 6.2 / 6.3,
+# RFC 7313 5; OPERATIONAL is a draft without an error code of its own: FSM Error), or Bad Message Length (6.1: "if the
+# Length field of an OPEN/UPDATE/KEEPALIVE/NOTIFICATION message is less than the minimum length ...").  A NOTIFICATION is
+# never answered (RFC 4271 6.4 "any error detected in a NOTIFICATION ... can not be [reported]").  An unrecognised type is
+# Bad Message Type and nothing else.
+BY_TYPE = {1: {2}, 2: {3}, 3: set(), 4: set(), 5: {7}, 6: {5}}
 
 
-def defined(code, subcode):
-    return int(code) in DEFINED and int(subcode) in DEFINED[int(code)]
+def allowed(mtype, code, subcode):
+    code, subcode = int(code), int(subcode)
+    if not isinstance(mtype, int) or mtype not in BY_TYPE:
+        return (code, subcode) == (1, 3)
+    if mtype == 3:
+        return False
+    if (code, subcode) == (1, 2):
+        return True
+    return code in BY_TYPE[mtype] and subcode in DEFINED[code]
 
 
 # ---------------------------------------------------------------------------------------------------- plumbing
@@ -104,6 +115,57 @@ def _nothing(*a, **k):
 
 _silence()
 
+
+# bytes.decode on symbolic octets, as this property needs it: the TEXT is formatting (sampled), what matters is whether
+# decoding RAISES.  errors != 'strict' cannot raise: no fork.  errors == 'strict': ONE fork on "the octets are well-formed
+# UTF-8 / ASCII" (RFC 3629 automaton unrolled over the positions as one z3 formula), then the real decoder runs on the
+# model's octets - it returns text on the well-formed side and raises its own UnicodeDecodeError on the other.
+_UTF8_CLASSES = ((0xC2, 0xDF, 1, (0x80, 0xBF)), (0xE0, 0xE0, 2, (0xA0, 0xBF)), (0xE1, 0xEC, 2, (0x80, 0xBF)), (0xEE, 0xEF, 2, (0x80, 0xBF)),
+                 (0xED, 0xED, 2, (0x80, 0x9F)), (0xF0, 0xF0, 3, (0x90, 0xBF)), (0xF1, 0xF3, 3, (0x80, 0xBF)), (0xF4, 0xF4, 3, (0x80, 0x8F)))
+
+
+def _between(x, lo, hi):
+    if type(x) is int:
+        return lo <= x <= hi
+    return s_and(x >= lo, x <= hi)
+
+
+def _well_formed(items, ascii_only):
+    n = len(items)
+    memo = {n: True}
+
+    def ok(i):
+        if i in memo:
+            return memo[i]
+        b = items[i]
+        alts = [s_and(_between(b, 0, 0x7F), ok(i + 1))]
+        if not ascii_only:
+            for lo, hi, need, first in _UTF8_CLASSES:
+                if i + need < n:
+                    conds = [_between(b, lo, hi), _between(items[i + 1], *first)] + [_between(items[i + k], 0x80, 0xBF) for k in range(2, need + 1)]
+                    alts.append(s_and(*(conds + [ok(i + need + 1)])))
+        memo[i] = s_or(*alts)
+        return memo[i]
+    for i in range(n - 1, -1, -1):   # bottom-up: no deep recursion
+        ok(i)
+    return ok(0)
+
+
+_decode_engine = _core.SBytes.decode
+
+
+def _decode(self, encoding='utf-8', errors='strict'):
+    enc = str(encoding).lower().replace('_', '-')
+    if self.is_concrete() or enc not in ('utf-8', 'utf8', 'ascii'):
+        return _decode_engine(self, encoding, errors)
+    if errors == 'strict':
+        bool(_well_formed(self.items, enc == 'ascii'))     # the fork; the model now sits on the side taken
+    return _core.SampledStr(self.sampled().decode(encoding, errors))
+
+
+_core.SBytes.decode = _decode
+
+_DEBUG = bool(os.environ.get('C03_DEBUG'))
 STEP_CAP = 60000
 STEPS_PER_BYTE = 400
 STEPS_BASE = 3000
@@ -122,10 +184,14 @@ def reset_state():
     if hasattr(UpdateCollection, '_EOR_CACHE'):
         UpdateCollection._EOR_CACHE.clear()
     _ls_reset()
-    _silence()
+    global _NMODS
+    if len(sys.modules) != _NMODS:
+        _NMODS = len(sys.modules)
+        _silence()
 
 
 _LS_SNAPSHOT = None
+_NMODS = 0
 
 
 def _ls_reset():
@@ -219,18 +285,33 @@ def force(msg, neg):
     return out
 
 
-def api_render(msg, neg):
-    """the JSON and text events the API process receives (concrete replay only: one model per path)"""
+def api_render(msg, neg, body):
+    """the events every API encoder (v6 JSON, legacy v4 JSON and text) writes for the message, as Processes.message
+    dispatches them (concrete replay only: one model per path; the content of the events is C13)"""
     from exabgp.reactor.api.response import Response
-    from exabgp.version import json as json_version, text as text_version
+    from exabgp.version import json as json_version, json_v4, text_v4
+    from exabgp.bgp.message.open import Open
+    from exabgp.bgp.message.keepalive import KeepAlive
+    from exabgp.bgp.message.refresh import RouteRefresh
+    from exabgp.bgp.message.operational import Operational
     nb = neg.neighbor
-    J = Response.JSON(json_version)
-    T = Response.Text(text_version)
-    if isinstance(msg, Update):
-        J.update(nb, 'receive', msg.data, b'', b'', neg)
-        T.update(nb, 'receive', msg.data, b'', b'', neg)
-    elif isinstance(msg, EOR):
-        J.update(nb, 'receive', msg, b'', b'', neg) if hasattr(msg, 'announces') else None
+    header = b'\xff' * 16 + (19 + len(body)).to_bytes(2, 'big') + bytes([int(msg.ID)])
+    for enc in (Response.JSON(json_version), Response.V4.JSON(json_v4), Response.V4.Text(text_v4)):
+        for h, b in ((b'', b''), (header, bytes(body))):
+            if isinstance(msg, Update):
+                enc.update(nb, 'receive', msg.data, h, b, neg)
+            elif isinstance(msg, EOR):
+                enc.update(nb, 'receive', msg, h, b, neg)
+            elif isinstance(msg, Open):
+                enc.open(nb, 'receive', msg, h, b, neg)
+            elif isinstance(msg, Notification):
+                enc.notification(nb, 'receive', msg, h, b, neg)
+            elif isinstance(msg, KeepAlive):
+                enc.keepalive(nb, 'receive', h, b, neg)
+            elif isinstance(msg, RouteRefresh):
+                enc.refresh(nb, 'receive', msg, h, b, neg)
+            elif isinstance(msg, Operational):
+                enc.operational(nb, 'receive', msg.category, msg, h, b, neg)
     return True
 
 
@@ -262,7 +343,7 @@ def observe(ctx, mtype, body, neg, name, L=None):
         ctx.note('class', 'notify-%d/%d' % (code, sub))
         if stage != 'decode':
             ctx.check('only-notify-escapes', False, sig='C03:%s:notify-after-decode:%d/%d' % (name, code, sub), info={'body': body, 'notify': str(exc)[:200]})
-        ok = defined(code, sub) and (mtype not in BY_TYPE or code in BY_TYPE[mtype])
+        ok = allowed(mtype, code, sub)
         ctx.check('notify-code-defined', ok, sig='C03:%s:undefined-notification:%d/%d' % (name, code, sub), info={'body': body, 'notify': str(exc)[:200]})
         out = ('notify', code, sub)
     elif exc is not None:
@@ -276,7 +357,7 @@ def observe(ctx, mtype, body, neg, name, L=None):
         ctx.note('class', 'decoded:%s' % shape[0])
         out = ('decoded', shape)
         if not ctx.sym:
-            ctx.witness_check('api-renders', lambda: api_render(msg, neg), sig='C03:%s:api-render-raises' % name, info={'body': body})
+            ctx.witness_check('api-renders', lambda: api_render(msg, neg, body), sig='C03:%s:api-render-raises' % name, info={'body': body})
     limit = STEPS_PER_BYTE * L + STEPS_BASE
     ctx.check('bounded-work', meter.steps <= limit, sig='C03:%s:work-not-linear' % name, info={'body': body, 'steps': meter.steps, 'limit': limit, 'top': meter.top(4)})
     return out
@@ -299,8 +380,9 @@ def _site(exc):
 TYPES = {'open': 1, 'update': 2, 'notification': 3, 'keepalive': 4, 'route-refresh': 5, 'operational': 6, 'unregistered': 7}
 
 
-def h_free(ctx, tname, L, sess='asn4'):
+def h_free(ctx, tname, lengths, sess='asn4'):
     neg = session(**SESSIONS[sess])
+    L = lengths[0] if len(lengths) == 1 else ctx.pick('L', lengths)
     body = ctx.bytes('b', L)
     mtype = TYPES[tname]
     if tname == 'unregistered':
@@ -308,13 +390,616 @@ def h_free(ctx, tname, L, sess='asn4'):
     return observe(ctx, mtype, body, neg, 'free:' + tname)
 
 
+def h_free_attrs(ctx, lengths, sess='asn4'):
+    """UPDATE whose two length fields are concrete and whose path-attribute block is n free bytes (+ one IPv4 NLRI)"""
+    neg = session(**SESSIONS[sess])
+    n = lengths[0] if len(lengths) == 1 else ctx.pick('n', lengths)
+    items = [0, 0] + be(n, 2) + K.sym(ctx, 'a', n) + [24, 10, 0, 0]
+    return observe(ctx, 2, K.mk(ctx, items), neg, 'free:update-attributes')
+
+
+# ---------------------------------------------------------------------------------------------------- builders
+#
+# A builder makes the items of one message body from a SOURCE F: F.sym(name, n) n payload bytes, F.near(name, n, size)
+# a length field in n..n+2 (the declared length may overrun what follows), F.pick(name, options).
+# With the harness' source the payload is symbolic; with a Probe it is a constant filler: the probe decodes the body
+# concretely for every candidate size and keeps the sizes at which the outcome class changes (the boundaries of the
+# decoder's own length checks) - that only CHOOSES the sizes explored, every verdict is the symbolic run's.
+
+
+def be(n, size):
+    return list(int(n).to_bytes(size, 'big'))
+
+
+class Src:
+    def __init__(self, ctx):
+        self.ctx = ctx
+
+    def sym(self, name, n):
+        return K.sym(self.ctx, name, n)
+
+    def near(self, name, n, size=1, slack=2):
+        top = 256 ** size - 1
+        # never BELOW n: a shorter declared length only re-reads the tail as one more TLV of symbolic type (the decoder
+        # itself sees what it sees at the smaller size L), which enumerates type codes instead of deciding anything
+        lo, hi = min(top, max(0, n)), min(top, max(0, n) + slack)
+        v = self.ctx.int(name, lo, hi)
+        if size == 1:
+            return [v]
+        return [v // 256, v % 256] if self.ctx.sym else be(v, 2)
+
+    def pick(self, name, options):
+        return self.ctx.pick(name, options)
+
+    def byte(self, name):
+        return self.ctx.byte(name)
+
+
+class Probe:
+    def __init__(self, fill):
+        self.fill = fill
+
+    def sym(self, name, n):
+        return [self.fill] * n
+
+    def near(self, name, n, size=1, slack=2):
+        return be(min(n, 256 ** size - 1), size)
+
+    def pick(self, name, options):
+        return list(options)[0]
+
+    def byte(self, name):
+        return self.fill
+
+
+def tlv(flag, code, value):
+    n = len(value)
+    if n > 255:
+        return [flag | 0x10, code] + be(n, 2) + list(value)
+    return [flag & 0xEF, code, n] + list(value)
+
+
+BASE_ATTRS = [[0x40, 1, 1, 0], [0x40, 2, 0]]
+NEXT_HOP = [0x40, 3, 4, 192, 0, 2, 1]
+
+
+def upd_attr(flag, code, value):
+    """well-formed UPDATE: ORIGIN, empty AS_PATH, NEXT_HOP, the attribute under test, one IPv4 NLRI"""
+    skip = {1: 0, 2: 1}.get(code)
+    base = [a for i, a in enumerate(BASE_ATTRS) if i != skip] + ([NEXT_HOP] if code != 3 else [])
+    return K.body([], base + [tlv(flag, code, value)], [[24, 10, 0, 0]])
+
+
+def family_nexthop(afi, safi):
+    """a next hop MP_REACH accepts for the family (Family.size read live): zero RD + address"""
+    from exabgp.protocol.family import Family
+    lengths, rd = Family.size[(AFI.from_int(afi), SAFI.from_int(safi))]
+    n = [x for x in lengths if x][0]
+    addr = n - rd
+    ip = [192, 0, 2, 1] if addr == 4 else ([0x20, 1, 0x0d, 0xb8] + [0] * 11 + [1]) * (addr // 16)
+    return [0] * rd + ip
+
+
+def upd_reach(afi, safi, nlri, nh=None):
+    nh = family_nexthop(afi, safi) if nh is None else nh
+    v = be(afi, 2) + [safi, len(nh)] + list(nh) + [0] + list(nlri)
+    return K.body([], BASE_ATTRS + [tlv(0x80, 14, v)], [])
+
+
+def upd_unreach(afi, safi, nlri):
+    return K.body([], [tlv(0x80, 15, be(afi, 2) + [safi] + list(nlri))], [])
+
+
+def open_body(params):
+    return [4] + be(65001, 2) + be(180, 2) + [5, 6, 7, 8, len(params)] + list(params)
+
+
+class Plan:
+    """one decoder: build(F, L) -> (message type, body items); candidates: payload sizes probed; sessions it runs on"""
+
+    def __init__(self, name, build, top=40, sess=('asn4',), mtype=2, keep=None, cover=(), weight=10, base=(0, 1, 2, 3, 4),
+                 group=None, variants=None):
+        self.name, self.build, self.top, self.mtype, self.keep, self.cover, self.weight, self.base = name, build, top, mtype, keep, cover, weight, base
+        # variants: (tag, session) - the builder receives the tag when it takes three arguments
+        self.variants = list(variants) if variants else [('' if x == 'asn4' else x, x) for x in sess]
+        self.group = group or name
+
+    def make(self, F, L, tag):
+        return self.build(F, L, tag) if self.build.__code__.co_argcount - len(self.build.__defaults__ or ()) >= 3 else self.build(F, L)
+
+    _sizes = {}
+
+    def sizes(self, tier, variant=0):
+        """sizes explored; the secondary variants (other wrapper, same decoder) run at three sizes only: a small one, the
+        smallest the decoder accepts and the largest explored"""
+        key = (self.name, tier)
+        if key not in Plan._sizes:
+            Plan._sizes[key] = (self._probe(tier), self.accepted)
+        sizes, accepted = Plan._sizes[key]
+        if variant == 0 or tier == 'thorough':
+            return sizes
+        ok = [x for x in sizes if x in accepted]
+        return sorted(set([sizes[min(2, len(sizes) - 1)], ok[0] if ok else sizes[-1], sizes[-1]]))
+
+    def _probe(self, tier):
+        th = tier == 'thorough'
+        top = self.top * 2 if th else self.top
+        tag, sess = self.variants[0]
+        neg = session(**SESSIONS[sess])
+        cls = {}
+        for L in range(0, top + 1):
+            out = []
+            for fill in (0, 1, 0xFF):
+                reset_state()
+                try:
+                    with Meter(cap=STEP_CAP):
+                        m = Message.unpack(self.mtype, bytes(self.make(Probe(fill), L, tag)), neg)
+                        what = type(m).__name__
+                        if isinstance(m, Update):
+                            d = m.data
+                            what += ':%d:%d:%s' % (len(d.announces), len(d.withdraws), sorted(int(c) for c in d.attributes))
+                    out.append('ok:' + what)
+                except Notify as n:
+                    out.append('n%d/%d' % (n.code, n.subcode))
+                except StepBudget:
+                    out.append('wedged')
+                except Exception as e:
+                    out.append('x' + type(e).__name__)
+            cls[L] = tuple(out)
+        reset_state()
+        edge = set()
+        for L in range(0, top + 1):
+            if (L > 0 and cls[L] != cls[L - 1]) or (L < top and cls[L] != cls[L + 1]):
+                edge.add(L)
+        self.accepted = [L for L in range(0, top + 1) if any(o.startswith('ok') and '65535' not in o and '65534' not in o for o in cls[L])]
+        keep = (self.keep or 12) * (2 if th else 1)
+        want = sorted(set(x for x in self.base if x <= top) | edge)
+        if len(want) > keep:
+            # keep the base sizes and spread the rest over the boundaries found
+            rest = [x for x in want if x not in self.base]
+            step = max(1, -(-len(rest) // max(1, keep - len(self.base))))
+            want = sorted(set(x for x in self.base if x <= top) | set(rest[::step]) | {rest[-1]})
+        return want
+
+
+def h_group(ctx, plans, tier):
+    plan = plans[0] if len(plans) == 1 else ctx.pick('decoder', plans)
+    vi = 0 if len(plan.variants) == 1 else ctx.choice('variant', len(plan.variants))
+    tag, sess = plan.variants[vi]
+    neg = session(**SESSIONS[sess])
+    sizes = plan.sizes(tier, vi)
+    L = sizes[0] if len(sizes) == 1 else ctx.pick('L', sizes)
+    items = plan.make(Src(ctx), L, tag)
+    body = K.mk(ctx, items)
+    ctx.cover('reached:' + plan.name)
+    out = observe(ctx, plan.mtype, body, neg, plan.name + (':' + tag if tag else ''))
+    if _DEBUG:
+        ctx.note('class', '%s%s L=%d %s' % (plan.name, ':' + tag if tag else '', L, ctx.notes.get('class')))
+    return (plan.name, tag, L, out)
+
+
+# ---------------------------------------------------------------------------------------------------- plans (registries read LIVE)
+
+
+def attribute_plans():
+    from exabgp.bgp.message.update.attribute.aspath import ASPath
+    from exabgp.bgp.message.update.attribute.community.extended.community import ExtendedCommunity, ExtendedCommunityIPv6
+    from exabgp.bgp.message.update.attribute.bgpls.linkstate import LinkState
+    from exabgp.bgp.message.update.attribute.sr.prefixsid import PrefixSid
+    from exabgp.bgp.message.update.attribute.pmsi import PMSI
+    from exabgp.bgp.message.update.attribute.tunnel_encap.tlv import TunnelTypeTLV, SubTLV
+    import exabgp.bgp.message.update.attribute.tunnel_encap.sr_policy.segment_list as seglist
+    plans = []
+    for (code, kflag), klass in sorted(Attribute.registered_attributes.items()):
+        flag = kflag & 0xEF
+        both = ('asn4', 'asn2') if code in (2, 7, 17, 18) else ('asn4',)
+        if code in (14, 15):
+            continue   # the NLRI plans
+        plans.append(Plan('attr:%d' % code, lambda F, L, flag=flag, code=code: upd_attr(flag, code, F.sym('v', L)), sess=both, top=40, weight=30))
+        if code in (2, 17):
+            for t in sorted(ASPath._DISPATCH) + [9]:
+                for a4 in both:
+                    size = 4 if (a4 == 'asn4' or code == 17) else 2
+                    plans.append(Plan('attr:%d:segment-%d' % (code, t), lambda F, L, flag=flag, code=code, t=t, size=size:
+                                      upd_attr(flag, code, [t] + F.near('count', L // size) + F.sym('v', L)), sess=(a4,), top=12, keep=8))
+        elif code in (16, 25):
+            reg, size = (ExtendedCommunity, 8) if code == 16 else (ExtendedCommunityIPv6, 20)
+            keys = sorted(reg.registered_extended) + [(5, 99)]
+
+            def b_ext(F, L, flag=flag, code=code, keys=keys, size=size):
+                t, sub = F.pick('type', keys)
+                one = [F.byte('hi') // 16 * 16 + t if False else F.byte('hi-nibble') % 16 * 0 + t, sub] + F.sym('v', size - 2)
+                return upd_attr(flag, code, one + F.sym('w', L))
+            plans.append(Plan('attr:%d:types' % code, b_ext, top=size, keep=3, base=(0, 1, size), cover=('decoded',), weight=60))
+        elif code == 22:
+            for t in sorted(PMSI._pmsi_known) + [99]:
+                plans.append(Plan('attr:22:tunnel-%d' % t, lambda F, L, flag=flag, t=t: upd_attr(flag, 22, F.sym('fl', 1) + [t] + F.sym('label', 3) + F.sym('v', L)), top=20, keep=8))
+        elif code == 23:
+            for tt in sorted(TunnelTypeTLV.registered_tunnel_types) + [8]:
+                plans.append(Plan('attr:23:tunnel-%d' % tt, lambda F, L, flag=flag, tt=tt: upd_attr(flag, 23, be(tt, 2) + F.near('tl', L, 2) + F.sym('v', L)), top=12, keep=8))
+            tt = sorted(TunnelTypeTLV.registered_tunnel_types)[0]
+            for sub in sorted(SubTLV.registered_subtypes) + [77, 200]:
+                def b_sub(F, L, flag=flag, tt=tt, sub=sub):
+                    inner = [sub] + F.near('sl', L, 1 if sub < 128 else 2) + F.sym('v', L)
+                    return upd_attr(flag, 23, be(tt, 2) + be(len(inner), 2) + inner)
+                plans.append(Plan('attr:23:sub-%d' % sub, b_sub, top=30, keep=10))
+            if 128 in SubTLV.registered_subtypes:
+                subs = sorted(set(int(k.SUBTYPE) for k in vars(seglist).values() if isinstance(k, type) and isinstance(getattr(k, 'SUBTYPE', None), int)
+                                  and not issubclass(k, SubTLV) and k.__module__ == seglist.__name__))
+                for sst in subs + [99]:
+                    def b_seg(F, L, flag=flag, tt=tt, sst=sst):
+                        inner2 = [sst] + F.near('ssl', L) + F.sym('v', L)
+                        inner = [128] + be(1 + len(inner2), 2) + F.sym('rsv', 1) + inner2
+                        return upd_attr(flag, 23, be(tt, 2) + be(len(inner), 2) + inner)
+                    plans.append(Plan('attr:23:segment-%d' % sst, b_seg, top=44, keep=8))
+        elif code == 26:
+            plans.append(Plan('attr:26:tlv', lambda F, L, flag=flag: upd_attr(flag, 26, [F.pick('t', (1, 2))] + F.near('tl', L + 3, 2) + F.sym('v', L)), top=12, keep=8))
+        elif code == 29:
+            for t, k in sorted(LinkState.registered_lsids.items()) + [(4242, None)]:
+                plans.append(Plan('attr:29:tlv-%d' % t, lambda F, L, flag=flag, t=t: upd_attr(flag, 29, be(t, 2) + F.near('tl', L, 2) + F.sym('v', L)), top=40, keep=10, group='attr:29:tlvs-%d' % (len([p for p in plans if p.name.startswith('attr:29:tlv-') and ':sub-' not in p.name]) // 6)))
+                subs = getattr(k, 'registered_subsubtlvs', None)
+                if subs:
+                    for st in sorted(subs) + [9999]:
+                        plans.append(Plan('attr:29:tlv-%d:sub-%d' % (t, st), lambda F, L, flag=flag, t=t, st=st, k=k: b_ls_sub(F, L, flag, t, st), top=16, keep=8, group='attr:29:sub-tlvs'))
+        elif code == 40:
+            for t in sorted(set(PrefixSid.registered_srids) | {5, 6, 77}):
+                plans.append(Plan('attr:40:tlv-%d' % t, lambda F, L, flag=flag, t=t: upd_attr(flag, 40, [t] + F.near('tl', L, 2) + F.sym('v', L)), top=30, keep=10))
+    return plans
+
+
+_LS_FIXED = {}
+
+
+def b_ls_sub(F, L, flag, t, st):
+    """a BGP-LS attribute TLV holding sub-TLVs: the fixed part (its size is found by probing: the shortest all-zero value
+    the TLV accepts) then one sub-TLV of type st"""
+    if t not in _LS_FIXED:
+        neg = session()
+        n = 0
+        for n in range(0, 65):
+            reset_state()
+            try:
+                Message.unpack(2, bytes(upd_attr(flag, 29, be(t, 2) + be(n, 2) + [0] * n)), neg).data.attributes.json()
+                break
+            except Exception:
+                continue
+        _LS_FIXED[t] = n
+        reset_state()
+    n = _LS_FIXED[t]
+    inner = F.sym('fixed', n) + be(st, 2) + F.near('sl', L, 2) + F.sym('v', L)
+    return upd_attr(flag, 29, be(t, 2) + be(len(inner), 2) + inner)
+
+
+def nlri_plans(th=False):
+    from exabgp.bgp.message.update.nlri.evpn.nlri import EVPN
+    from exabgp.bgp.message.update.nlri.mup.nlri import MUP
+    from exabgp.bgp.message.update.nlri.mvpn.nlri import MVPN
+    from exabgp.bgp.message.update.nlri.bgpls.nlri import BGPLS
+    import exabgp.bgp.message.update.nlri.flow as flow
+    plans = []
+
+    variants = [('reach', 'asn4'), ('unreach', 'asn4'), ('addpath-reach', 'addpath')] + ([('addpath-unreach', 'addpath')] if th else [])
+
+    def add(name, nlri, afi, safi, **kw):
+        """through MP_REACH (announce) and MP_UNREACH (withdraw); with ADD-PATH the path identifier precedes the NLRI"""
+        def build(F, L, tag):
+            n = (F.sym('pid', 4) if tag.startswith('addpath') else []) + nlri(F, L)
+            return upd_reach(afi, safi, n) if tag.endswith('unreach') is False else upd_unreach(afi, safi, n)
+        plans.append(Plan(name, build, variants=variants, **kw))
+
+    for afi_, safi_ in families():
+        a, s = int(afi_), int(safi_)
+        if (a, s) in UNCONFIGURABLE:
+            continue   # cannot be negotiated: MP_REACH/MP_UNREACH of the family is refused before its decoder runs (free:not-negotiated)
+        fam = '%s-%s' % (afi_, safi_)
+        add('nlri:%s' % fam, lambda F, L: F.sym('n', L), a, s, top=44, weight=40)
+        if (a, s) == (25, 70):
+            for code in sorted(EVPN.registered_evpn) + [0x7f]:
+                add('nlri:%s:type-%d' % (fam, code), lambda F, L, code=code: [code] + F.near('len', L) + F.sym('n', L), a, s, top=64, weight=30)
+        elif s == 5:
+            for code in sorted(MVPN.registered_mvpn) + [0x7f]:
+                add('nlri:%s:type-%d' % (fam, code), lambda F, L, code=code: [code] + F.near('len', L) + F.sym('n', L), a, s, top=52, weight=30)
+        elif s == 85:
+            for key in sorted(MUP.registered_mup) + ['1:99']:
+                arch, code = [int(x) for x in key.split(':')]
+                add('nlri:%s:type-%d-%d' % (fam, arch, code), lambda F, L, arch=arch, code=code: [arch] + be(code, 2) + F.near('len', L) + F.sym('n', L), a, s, top=72, weight=30)
+        elif a == 16388:
+            vpn = s == 72
+            for code in sorted(BGPLS.registered_bgpls) + [0x7f]:
+                def b_ls(F, L, code=code, vpn=vpn):
+                    rd = F.sym('rd', 8) if vpn else []
+                    return be(code, 2) + F.near('len', L + len(rd), 2) + rd + F.sym('n', L)
+                add('nlri:%s:type-%d' % (fam, code), b_ls, a, s, top=24, weight=30)
+                klass = BGPLS.registered_bgpls.get(code)
+                if klass is None:
+                    continue
+                mod = sys.modules[klass.__module__]
+                codes = sorted(set(v for n, v in vars(mod).items() if n.startswith('TLV_') and isinstance(v, int) and v > 255))
+                for t in codes + [999]:
+                    def b_desc(F, L, code=code, vpn=vpn, t=t):
+                        """protocol-id, identifier, a well-formed local node descriptor, then the descriptor TLV under test"""
+                        rd = F.sym('rd', 8) if vpn else []
+                        node = be(512, 2) + be(4, 2) + F.sym('as', 4) + be(515, 2) + be(4, 2) + F.sym('rid', 4)
+                        first = be(256, 2) + be(len(node), 2) + node if t != 256 else []
+                        body = [F.pick('proto', (3, 2))] + F.sym('ident', 8) + first + be(t, 2) + F.near('tl', L, 2) + F.sym('v', L)
+                        return be(code, 2) + be(len(rd) + len(body), 2) + rd + body
+                    add('nlri:%s:type-%d:tlv-%d' % (fam, code, t), b_desc, a, s, top=24, keep=8, weight=20, group='nlri:%s:type-%d:tlvs' % (fam, code))
+        elif s in (133, 134):
+            comps = sorted(flow.decode[AFI.from_int(a)]) + [0, 99]
+            for comp in comps:
+                def b_flow(F, L, comp=comp, vpn=(s == 134)):
+                    rd = F.sym('rd', 8) if vpn else []
+                    return F.near('len', L + 1 + len(rd)) + rd + [comp] + F.sym('n', L)
+                add('nlri:%s:component-%d' % (fam, comp), b_flow, a, s, top=10, keep=8, weight=60, group='nlri:%s:components-%d' % (fam, comps.index(comp) // 5))
+    # IPv4 unicast in the sections of the UPDATE itself
+    plans.append(Plan('nlri:ipv4-unicast:withdrawn', lambda F, L: be(L, 2) + F.sym('n', L) + [0, 0], top=12))
+    plans.append(Plan('nlri:ipv4-unicast:announced', lambda F, L: K.body([], BASE_ATTRS + [NEXT_HOP], [F.sym('n', L)]), top=12))
+    plans.append(Plan('nlri:ipv4-unicast:withdrawn-addpath', lambda F, L: be(L, 2) + F.sym('n', L) + [0, 0], top=12, sess=('addpath',)))
+    # the next hop of MP_REACH, per family
+    for afi_, safi_ in families():
+        a, s = int(afi_), int(safi_)
+        if (a, s) in UNCONFIGURABLE:
+            continue
+        one = {1: [24, 10, 0, 0], 2: [32, 0x20, 1, 0x0d, 0xb8]}.get(a) if s in (1, 2) else []
+        plans.append(Plan('nexthop:%s-%s' % (afi_, safi_), lambda F, L, a=a, s=s, one=one: upd_reach(a, s, one, F.sym('nh', L)), top=44, keep=8, cover=('refused',) if not one else ('decoded', 'refused'), group='nexthop:%s' % afi_))
+    # a family that is registered but not negotiated, and one that is not registered at all
+    plans.append(Plan('family:not-negotiated', lambda F, L: upd_reach(*F.pick('fam', sorted(UNCONFIGURABLE)), F.sym('n', L), nh=[192, 0, 2, 1]), top=6, cover=('refused',)))
+    plans.append(Plan('family:unknown', lambda F, L: (lambda v: K.body([], BASE_ATTRS + [tlv(0x80, F.pick('code', (14, 15)), v)], []))(F.sym('fam', 3) + F.sym('n', L)), top=6, cover=('refused',)))
+    return plans
+
+
+def open_plans():
+    from exabgp.bgp.message.open.capability.capability import Capability
+    plans = []
+    codes = sorted(int(k) for k in Capability.registered_capability)
+    for code in codes + [200]:
+        def b_cap(F, L, code=code):
+            cap = [code] + F.near('cl', L) + F.sym('v', L)
+            return open_body([2, len(cap)] + cap)
+        plans.append(Plan('capability:%d' % code, b_cap, mtype=1, top=24, keep=10, group='capabilities-%d' % ((codes + [200]).index(code) // 4)))
+
+        def b_cap_ext(F, L, code=code):
+            cap = [code] + F.near('cl', L) + F.sym('v', L)
+            params = [2] + be(len(cap), 2) + cap
+            return [4] + be(65001, 2) + be(180, 2) + [5, 6, 7, 8, 255, 255] + be(len(params), 2) + params
+        if code in (1, 5, 64, 69, 73):
+            plans.append(Plan('capability:%d:rfc9072' % code, b_cap_ext, mtype=1, top=24, keep=6, group='capabilities-rfc9072'))
+    plans.append(Plan('open:parameter', lambda F, L: open_body([F.pick('type', (0, 1, 2, 3, 255))] + F.near('pl', L) + F.sym('v', L)), mtype=1, top=8))
+    plans.append(Plan('open:two-capabilities', lambda F, L: open_body([2, 6 + L, 1, 4, 0, 1, 0, 1] + [F.pick('code', (1, 2, 64, 65, 69, 70))] + F.near('cl', L) + F.sym('v', L)), mtype=1, top=10))
+    return plans
+
+
+def operational_plans():
+    from exabgp.bgp.message.operational import Operational
+    plans = []
+    for t in sorted(Operational.registered_operational) + [0, 0xFFFF]:
+        plans.append(Plan('operational:%d' % t, lambda F, L, t=t: be(t, 2) + F.near('len', L, 2) + F.sym('v', L), mtype=6, top=24, keep=10, group='operational-%d' % (t % 2)))
+    return plans
+
+
+def notification_plans():
+    return [Plan('notification:shutdown', lambda F, L: [6, F.pick('sub', (2, 4))] + F.near('len', L - 1 if L else 0) + F.sym('v', max(0, L - 1)), mtype=3, top=5, keep=6, cover=('decoded',), base=(0, 1, 2, 3))]
+
+
+def all_plans(tier='quick'):
+    return attribute_plans() + nlri_plans(tier == 'thorough') + open_plans() + operational_plans() + notification_plans()
+
+
+# ---------------------------------------------------------------------------------------------------- through Protocol.read_message
+
+
+def h_proto(ctx, tname, lengths):
+    """the same free bodies handed to the real Protocol.read_message by a fake connection: whatever answers, it is never
+    the catch-all's Notify(1,0)"""
+    from checks import c06 as C6
+    neg = session()
+    L = ctx.pick('L', lengths)
+    body = ctx.bytes('b', L)
+    mtype = TYPES[tname]
+    header = K.mk(ctx, [0xFF] * 16 + be(19 + L, 2) + [mtype])
+    c = C6.mk_connection(4096)
+
+    async def reader_async():
+        return 19 + L, mtype, header, body, None
+    c.reader_async = reader_async
+    c.session = lambda: 's'
+    p = C6.mk_protocol(c)
+    p.negotiated = neg
+    p.neighbor.adj_rib_in = True
+    name = 'proto:' + tname
+    try:
+        with Meter(cap=STEP_CAP):
+            m = C6.drive(p.read_message())
+    except Notification as n:
+        if not isinstance(n, Notify):
+            ctx.cover('peer-notification')
+            return ('peer-notification',)
+        code, sub = int(n.code), int(n.subcode)
+        ctx.cover('refused')
+        ctx.check('not-the-catch-all', (code, sub) != (1, 0), sig='C03:%s:answered-by-catch-all-1/0' % name, info={'body': body, 'notify': str(n)[:200]})
+        ctx.check('notify-code-defined', allowed(mtype, code, sub) or (code, sub) == (1, 0), sig='C03:%s:undefined-notification:%d/%d' % (name, code, sub), info={'body': body})
+        return ('notify', code, sub)
+    except StepBudget:
+        ctx.check('bounded-work', False, sig='C03:%s:unbounded-work' % name, info={'body': body})
+        return ('wedged',)
+    except Exception as e:
+        ctx.check('only-notify-escapes', False, sig='C03:%s:raises-%s:%s' % (name, type(e).__name__, _site(e)), info={'body': body})
+        return ('raises', type(e).__name__)
+    ctx.cover('decoded')
+    return ('message', type(m).__name__)
+
+
+# ---------------------------------------------------------------------------------------------------- valid but unusual
+
+UNREGISTERED_CODES = None
+
+
+def unregistered_codes():
+    global UNREGISTERED_CODES
+    if UNREGISTERED_CODES is None:
+        known = set(int(c) for c, _ in Attribute.registered_attributes) | set(int(x) for x in getattr(Attribute, 'attributes_known', ()))
+        UNREGISTERED_CODES = [c for c in range(41, 255) if c not in known]
+    return UNREGISTERED_CODES
+
+
+def unusual_body(k, transitive, values=None, flags=None, vlen=0):
+    """ORIGIN, AS_PATH, NEXT_HOP, then k attributes of unregistered type codes (optional, or optional transitive), each
+    with vlen value bytes, and one IPv4 NLRI.  The codes cycle through the unregistered ones: beyond ~200 attributes a
+    type code repeats, which RFC 7606 3.g settles as 'all but the first discarded, the UPDATE continues to be processed'."""
+    codes = unregistered_codes()
+    attrs = list(BASE_ATTRS) + [NEXT_HOP]
+    for i in range(k):
+        f = (0xC0 if transitive else 0x80) if flags is None else flags[i]
+        v = [0] * vlen if values is None else values[i]
+        attrs.append([f, codes[i % len(codes)], len(v)] + list(v))
+    return K.body([], attrs, [[24, 10, 0, 0]])
+
+
+def parse_depth(body, neg):
+    """(outcome, recursion depth of AttributeCollection.parse, exabgp stack depth) decoding body for real"""
+    reset_state()
+    m = Meter(cap=50_000_000, track='AttributeCollection.parse')
+    try:
+        with m:
+            msg = Message.unpack(2, body, neg)
+            msg.data
+        out = 'decoded'
+    except Notify as n:
+        out = 'notify-%d/%d' % (n.code, n.subcode)
+    except Exception as e:
+        out = type(e).__name__
+    return out, m.tdepth, m.depth
+
+
+def h_depth(ctx, k, transitive):
+    """k unknown attributes with symbolic flags (optional / partial / extended-length bits), symbolic values: decoded, and
+    AttributeCollection.parse nests exactly once per attribute (3 mandatory + k) plus the final empty call"""
+    neg = session()
+    flags, values = [], []
+    items = list(BASE_ATTRS) + [NEXT_HOP]
+    codes = unregistered_codes()
+    for i in range(k):
+        partial = ctx.int('partial%d' % i, 0, 1)
+        f = (0xC0 if transitive else 0x80) + 0x20 * partial
+        v = K.sym(ctx, 'v%d' % i, 2)
+        items.append([f, codes[i % len(codes)], 2] + v)
+    body = K.mk(ctx, K.body([], items, [[24, 10, 0, 0]]))
+    reset_state()
+    m = Meter(cap=STEP_CAP, track='AttributeCollection.parse')
+    try:
+        with m:
+            msg = Message.unpack(2, body, neg)
+            n_ann = len(msg.data.announces)
+    except Exception as e:
+        ctx.check('valid-message-accepted', False, sig='C03:unusual:%d-unknown-attributes:refused-%s' % (k, type(e).__name__), info={'body': body})
+        return ('refused', type(e).__name__)
+    ctx.cover('decoded')
+    ctx.check('valid-message-accepted', n_ann == 1, sig='C03:unusual:%d-unknown-attributes:route-lost' % k, info={'body': body})
+    # the linear law the solver query of unusual/limit relies on
+    ctx.check('depth-is-linear', m.tdepth == k + 4, sig='C03:unusual:parse-depth-law-changed', info={'k': k, 'depth': m.tdepth})
+    return ('decoded', k, m.tdepth)
+
+
+def h_limit(ctx, msg_size, transitive):
+    """z3 is asked for a number k of unknown optional attributes such that the UPDATE is legal for the session
+    (19 + 4 + 14 + 3k + 4 <= msg_size) and the recursion of AttributeCollection.parse (measured: d0 + d1*k frames below
+    the frames already on the stack) passes the interpreter's recursion limit.  unsat = the clause holds; a model is
+    rebuilt as a real UPDATE and decoded for real (the replay decides)."""
+    neg = session(extended=msg_size > 4096)
+    import inspect
+    # the law, measured on the real decoder at two sizes (and proved for symbolic contents by unusual/depth/*)
+    o1, t1, d1 = parse_depth(bytes(unusual_body(2, transitive)), neg)
+    o2, t2, d2 = parse_depth(bytes(unusual_body(12, transitive)), neg)
+    per = (t2 - t1) // 10              # frames of AttributeCollection.parse per attribute
+    base = d2 - 12 * per               # exabgp frames on the stack that do not depend on k
+    fixed = 19 + len(unusual_body(0, transitive))
+    here = len(inspect.stack(0))
+    limit = sys.getrecursionlimit()
+    k = ctx.int('k', 0, 65535)
+    if ctx.sym:
+        fits = fixed + 3 * k <= msg_size
+        deep = here + base + per * k > limit + 50     # 50 frames of margin: the replay process has another stack below the harness
+        ok = ctx.check('valid-unusual-message-decoded', s_implies(fits, s_not(deep)) if per else True,
+                       sig='C03:unusual:unknown-optional-attributes:%s:RecursionError' % ('transitive' if transitive else 'non-transitive'),
+                       info={'law': 'depth = %d + %d*k' % (base, per), 'stack': here, 'limit': limit, 'msg_size': msg_size})
+        ctx.cover('asked')
+        return ('asked', msg_size)
+    # concrete: k comes from the model (or 0): decode the real message
+    ctx.cover('asked')
+    if fixed + 3 * k > msg_size:
+        return ('asked', msg_size)
+    body = bytes(unusual_body(k, transitive))
+    out, t, d = parse_depth(body, neg)
+    ctx.check('valid-unusual-message-decoded', out == 'decoded',
+              sig='C03:unusual:unknown-optional-attributes:%s:%s' % ('transitive' if transitive else 'non-transitive', out),
+              info={'k': k, 'message-length': 19 + len(body), 'msg_size': msg_size, 'outcome': out, 'parse-depth': t})
+    return ('asked', msg_size)
+
+
+def h_many(ctx, ks, transitive, msg_size=4096):
+    """concrete sizes (k is the only variable): the largest UPDATEs the session allows decode, in linear work"""
+    neg = session(extended=msg_size > 4096)
+    k = ctx.pick('k', ks)
+    body = bytes(unusual_body(k, transitive))
+    if 19 + len(body) > msg_size:
+        ctx.assume(False)
+    reset_state()
+    m = Meter(cap=50_000_000)
+    try:
+        with m:
+            msg = Message.unpack(2, body, neg)
+            n_ann = len(msg.data.announces)
+            force(msg, neg)
+        out = 'decoded'
+    except Exception as e:
+        out = type(e).__name__
+        n_ann = 0
+    ctx.cover('ran')
+    kind = 'transitive' if transitive else 'non-transitive'
+    ctx.check('valid-unusual-message-decoded', out == 'decoded' and n_ann == 1, sig='C03:unusual:unknown-optional-attributes:%s:%s' % (kind, out),
+              info={'k': k, 'message-length': 19 + len(body), 'outcome': out})
+    limit = STEPS_PER_BYTE * len(body) + STEPS_BASE
+    ctx.check('bounded-work', m.steps <= limit, sig='C03:unusual:work-not-linear', info={'k': k, 'steps': m.steps, 'limit': limit})
+    return (k, out)
+
+
+# ---------------------------------------------------------------------------------------------------- units
+
+
 def units(tier):
     th = tier == 'thorough'
     us = []
-    T = 1500 if th else 240
-    top = {'open': 12, 'update': 6, 'notification': 6, 'keepalive': 3, 'route-refresh': 6, 'operational': 8, 'unregistered': 3}
+    T = 1500 if th else 300
+    top = {'open': (12, 14), 'update': (6, 7), 'notification': (5, 6), 'keepalive': (2, 3), 'route-refresh': (6, 7), 'operational': (8, 10), 'unregistered': (2, 3)}
     for tname in TYPES:
-        for L in range(0, top[tname] + 1):
-            us.append(Unit('free/%s/L%d' % (tname, L), lambda ctx, t=tname, L=L: h_free(ctx, t, L), reset=reset_state, hash_const=True,
-                           max_seconds=T, weight=1 + L * L))
+        n = top[tname][1 if th else 0]
+        if tname == 'update':
+            us.append(Unit('free/update/L0-4', lambda ctx: h_free(ctx, 'update', [0, 1, 2, 3, 4]), reset=reset_state, hash_const=True, max_seconds=T, must_cover=('decoded', 'refused')))
+            for L in range(5, n + 1):
+                us.append(Unit('free/update/L%d' % L, lambda ctx, L=L: h_free(ctx, 'update', [L]), reset=reset_state, hash_const=True, max_seconds=T,
+                               max_paths=300000, weight=40 * L, must_cover=('decoded', 'refused')))
+        else:
+            cov = {'keepalive': ('decoded', 'refused'), 'notification': ('decoded',), 'unregistered': ('refused',)}.get(tname, ('decoded', 'refused'))
+            us.append(Unit('free/%s' % tname, lambda ctx, t=tname, n=n: h_free(ctx, t, list(range(0, n + 1))), reset=reset_state, hash_const=True,
+                           max_seconds=T, max_paths=300000, weight=30, must_cover=cov))
+    for n in ((3, 4, 5, 6, 7) if th else (3, 4, 5, 6)):
+        us.append(Unit('free/update-attributes/n%d' % n, lambda ctx, n=n: h_free_attrs(ctx, [n]), reset=reset_state, hash_const=True, max_seconds=T,
+                       max_paths=300000, weight=30 * n, must_cover=('decoded',)))
+    groups = {}
+    for plan in all_plans(tier):
+        groups.setdefault(plan.group, []).append(plan)
+    for g, plans in groups.items():
+        cover = tuple('reached:' + p.name for p in plans) + tuple(sorted(set(c for p in plans for c in p.cover)))
+        us.append(Unit('dec/' + g.replace(':', '/'), lambda ctx, plans=plans: h_group(ctx, plans, tier), reset=reset_state, hash_const=True,
+                       max_seconds=T, max_paths=100000, weight=sum(p.weight for p in plans), must_cover=cover))
+    for tname in ('open', 'update', 'notification', 'keepalive', 'route-refresh', 'operational'):
+        n = min(top[tname][0], 5 if th else 4)
+        us.append(Unit('proto/%s' % tname, lambda ctx, t=tname, n=n: h_proto(ctx, t, list(range(0, n + 1))), reset=reset_state, hash_const=True, max_seconds=T, weight=20))
+    for tr in (False, True):
+        kind = 'transitive' if tr else 'optional'
+        for k in ((1, 3, 6) if not th else (1, 2, 3, 4, 5, 6, 8)):
+            us.append(Unit('unusual/depth/%s/k%d' % (kind, k), lambda ctx, k=k, tr=tr: h_depth(ctx, k, tr), reset=reset_state, hash_const=True, must_cover=('decoded',), weight=5))
+        for size in (4096, 65535):
+            us.append(Unit('unusual/limit/%s/%d' % (kind, size), lambda ctx, size=size, tr=tr: h_limit(ctx, size, tr), reset=reset_state, must_cover=('asked',), weight=5))
+        us.append(Unit('unusual/many/%s' % kind, lambda ctx, tr=tr: h_many(ctx, (64, 200, 400) if not th else (64, 200, 400, 800, 1356), tr), reset=reset_state, must_cover=('ran',), weight=5))
     return us
